@@ -247,6 +247,12 @@ def _unparse_JoinedStr(node: JoinedStr, qm: typing.Literal["'", '"']) -> unparse
                 # the converted script should run on python 3.8+, where
                 # a replacement field can not include a back slash
                 raise SyntaxError("Back slash is included in a f-string expression")
+            if qm in field:
+                # ... nor the quotation mark of the f-string itself
+                # (it can not be escaped there, see above)
+                raise SyntaxError(
+                    "The quotation mark of a f-string is included in a f-string expression"
+                )
             contents.append(field)
     return "".join(contents)
 
